@@ -35,7 +35,7 @@ ASSUMPTIONS = [
     'room) are not passed',
     'an explicit namespace override is a non-empty string',
 ]
-BUDGET = {'quick': 4000, 'thorough': 200000}
+BUDGET = {'quick': 12000, 'thorough': 200000}
 FLOOR = {'quick': 800, 'thorough': 5000}
 
 SIDES = {
